@@ -17,7 +17,8 @@ sys.path.insert(0, REPO)
 
 import logging  # noqa: E402
 
-logging.disable(logging.CRITICAL)  # eyecite logs "Unknown overlap case" warnings; not under test
+if not os.environ.get("VERIF_DEBUGLOG"):
+    logging.disable(logging.CRITICAL)  # eyecite logs "Unknown overlap case" warnings; not under test
 
 _SHADOW = os.environ.get("VERIF_SHADOW_SET") == "1"
 if _SHADOW:
